@@ -248,6 +248,10 @@ PROPS['C15']['case_files'] = ['c15']
 # C16: message formats (templates) + timing of retransmissions observed on the client scripts of C15
 PROPS['C16']['tests'] = PROPS['C16']['tests'] + ['TestC15']
 PROPS['C16']['direct_files'] = ['c16timing']
+# C14: which verifier each state is wired to is observed on the client scripts of C15 (foreign-server ACKs)
+PROPS['C14']['tests'] = PROPS['C14']['tests'] + ['TestC15']
+PROPS['C14']['direct_files'] = ['c14wiring']
+PROPS['C14']['case_files'] = ['c14']
 PROPS['C16']['case_files'] = [n for n in ('c16', 'c16templates', 'c16tmpl')]
 PROPS['C19'] = dict(
     tests=['TestC19ServerHistories', 'TestC19ServerFaults', 'TestC19ServerCancel', 'TestC19ClientCancel', 'TestC19ClientHistories',
